@@ -366,3 +366,12 @@ def registry_is(ct, cls: str, R: Any, Sx: Any, upd: Dict[str, Any]) -> Any:
     for n in PROP_NAMES[cls]:
         conj.append(prop(R, n) == (upd[n] if n in upd else prop(Sx, n)))
     return z3.And(*conj)
+
+
+def unfold_defs(ct, cls: str, R: Any) -> Any:
+    """Definitional unfolding of the specification relations for a schema object of known class
+    (wf / reach / conforms are *defined* by cases on the class)."""
+    w = z3.Const("uw", Obj)
+    return z3.And(wf(R) == z3.And(*wf_def(ct, cls, R)),
+                  reach(R) == z3.And(*reach_def(ct, cls, R)),
+                  z3.ForAll([w], conforms(R, w) == conforms_def(ct, cls, R, w), patterns=[conforms(R, w)]))
